@@ -276,6 +276,10 @@ CALL_FORMS = {
     "list-items": lambda body: [["num", "4"], ["num", "9"], ["list", [body, body + [["el", "›"]]]]],
     "function-2": lambda body: [["def", "f", ["2"], body], ["num", "4"], ["num", "9"], ["call", "f"]],
     "function-1-1": lambda body: [["def", "f", ["1", "1"], body], ["num", "4"], ["num", "9"], ["call", "f"]],
+    "function-2-a": lambda body: [["def", "f", ["2", "a"], body + [["get", "a"]]], ["num", "4"], ["num", "9"], ["num", "6"], ["call", "f"]],
+    "function-a-2": lambda body: [["def", "f", ["a", "2"], body + [["get", "a"]]], ["num", "4"], ["num", "9"], ["num", "6"], ["call", "f"]],
+    "function-1-a-1": lambda body: [["def", "f", ["1", "a", "1"], [["get", "a"]] + body], ["num", "4"], ["num", "9"], ["num", "6"], ["call", "f"]],
+    "function-1-a-short": lambda body: [["def", "f", ["1", "a"], body + [["get", "a"]]], ["num", "4"], ["call", "f"]],
     "for-body": lambda body: [["num", "6"], ["num", "2"], ["for", None, body]],
     "if-5-branches": lambda body: [["num", "6"], ["num", "0"], ["if", [[["num", "1"]], [["num", "0"]], [["num", "2"]], [["num", "3"]], body]]],
     "if-6-branches": lambda body: [["num", "6"], ["num", "0"], ["if", [[["num", "1"]], [["num", "0"]], [["num", "2"]], [["num", "0"]], [["num", "5"]], body]]],
@@ -294,6 +298,12 @@ FLAG_PROGRAMS = {
     "map": [_n(3), ["map", [["el", "d"]]]], "for-range": [_n(3), ["for", None, [["el", "n"]]]], "map-range": [_n(2), ["map", [["el", "ɾ"]]]],
     "filter-range": [_n(4), ["flt", [["el", "∷"]]]], "vectorised": [_n(3), ["mod", "v", [["el", "ɾ"]]]], "sum-range": [_n(4), ["el", "ɾ"], ["el", "∑"]],
     "no-newline": [_n(7), ["el", "₴"], _n(8)], "input-top": [["el", "?"]], "two-lists": [["list", [[_n(1)]]], ["list", [[_n(2)], [_n(0)]]]],
+    # the context variable n inside a while CONDITION is the enclosing one (loop item, lambda argument, 0 at top level), every time it is evaluated
+    "while-cond-n-in-for": [_n(3), ["for", None, [_n(0), ["while", [["el", ":"], ["el", "n"], ["el", "<"]], [["el", "›"]]]]]],
+    "while-cond-n-in-lambda": [_n(4), ["lam", None, [_n(0), ["while", [["el", ":"], ["el", "n"], ["el", "<"]], [["el", "›"]]]]], ["el", "†"]],
+    "while-cond-n-top": [_n(0), ["while", [["el", ":"], ["el", "n"], _n(3), ["el", "+"], ["el", "<"]], [["el", "›"]]]],
+    "while-body-n": [_n(2), ["while", [["el", ":"]], [["el", "n"], ["el", ","], ["el", "‹"]]]],
+    "while-cond-n-in-map": [_n(3), ["map", [_n(0), ["while", [["el", ":"], ["el", "n"], ["el", "<"]], [["el", "›"]]]]]],
 }
 
 
@@ -341,7 +351,7 @@ def check_deferred(src, kind, body, flag, ins):
     return None
 
 
-DEFER_PREFIXES = [[], [_n(5), ["el", ","]], [["str", "a"], ["el", "₴"]]]
+DEFER_PREFIXES = [[], [_n(5), ["el", ","]], [_n(7), ["el", "₴"]]]
 
 
 def _shard_deferred(rec, arg):
